@@ -617,7 +617,6 @@ static void _parse_input(Client * c, char *input)
     } else if (!strncasecmp(str, CP_QUIT, strlen(CP_QUIT))) {
         c->client_quit = true;
         _client_printf(c, CP_RSP_QUIT);                 /* quit */
-        _handle_write(c);
     } else if (sscanf(str, CP_ON, arg1) == 1) {         /* on hostlist */
         cmd = _create_command(c, PM_POWER_ON, arg1);
     } else if (sscanf(str, CP_OFF, arg1) == 1) {        /* off hostlist */
@@ -1086,12 +1085,15 @@ static void _handle_write(Client * c)
     int n;
     int ofd = c->ofd != NO_FD ? c->ofd : c->fd;
 
-    if (c->client_quit)
-        nonblock_clr(ofd);
+    /* never block here, not even for a client on its way out: one that
+     * does not read would stall every other session.  What cannot be
+     * delivered because the descriptor fails is dropped.
+     */
     n = cbuf_read_to_fd(c->to, ofd, -1);
     if (n < 0) {
         err(true, "write error on client");
         c->client_quit = true;
+        (void)cbuf_flush(c->to);
     }
 }
 
@@ -1194,7 +1196,9 @@ void cli_post_poll(xpollfd_t pfd)
 
         _handle_input(c);
 
-        if (c->client_quit && c->cmd == NULL)
+        /* a client that quit (or hung up) goes once its command is done
+         * and what it is owed has been written */
+        if (c->client_quit && c->cmd == NULL && cbuf_is_empty(c->to))
             goto client_dead;
         continue;
 
